@@ -181,6 +181,61 @@ fn structured_pairs<T: Scalar>(spec: &Spec, len: usize, st: &mut Stats, sink: &S
     }
 }
 
+/// Scale families at f64 (a run past 2^16 updates, a window past 2^8, a window past 2^16): pairs of
+/// the integer-valued drivers of `scale_drivers`, the seven instances in lockstep, judged at every
+/// step. Behaviour keyed on an update count or on the stored window length exceeding an integer
+/// width (a data-dependent shortcut that fires only there) breaks superposition.
+fn scale_pairs(spec: &Spec, len: usize, st: &mut Stats, sink: &Sink) {
+    if build_or_report::<f64>("C10", spec, sink).is_none() {
+        return;
+    }
+    st.configs += 1;
+    let d = scale_drivers(len, spec.n.max(1));
+    for (i, j) in [(0usize, 1usize), (1, 2), (2, 3), (3, 0)] {
+        let (xs, ys) = (&d[i].1, &d[j].1);
+        let m = max_abs(xs).max(max_abs(ys));
+        let gain = if spec.kind == Kind::Cumulative { spec.n as f64 } else { 1.0 };
+        let mut s = root::<f64>(spec);
+        for t in 0..len {
+            let (x, y) = (xs[t], ys[t]);
+            let r = guard(|| {
+                s.x.update(x);
+                s.y.update(y);
+                for (k, (a, b)) in AB.iter().enumerate() {
+                    s.z[k].update(*a * x + *b * y);
+                }
+            });
+            st.transitions += 2 + AB.len() as u64;
+            if let Err(msg) = r {
+                sink.push(Violation::new("C10", spec, "panicked", "f64", &xs[..=t], msg));
+                return;
+            }
+            let (ox, oy) = (s.x.last(), s.y.last());
+            for (k, (a, b)) in AB.iter().enumerate() {
+                let oz = s.z[k].last();
+                st.oracle_evals += 1;
+                let want = match (ox, oy) {
+                    (Some(p), Some(q)) => Some(*a * p + *b * q),
+                    _ => None,
+                };
+                let tol = 1e-9 * (1.0 + m * gain * (a.abs() + b.abs()));
+                let ok = ox.is_some() == oy.is_some()
+                    && match (oz, want) {
+                        (None, None) => true,
+                        (Some(g), Some(w)) => g.is_finite() && (g - w).abs() <= tol,
+                        _ => false,
+                    };
+                if !ok {
+                    sink.push(Violation::new("C10", spec, "superposition", "f64", &xs[..=t], format!("x = '{}' as listed, y = '{}', after {} updates: view({}x+{}y) = {:?} but {}view(x)+{}view(y) = {:?}", d[i].0, d[j].0, t + 1, a, b, oz, a, b, want)));
+                    return;
+                }
+            }
+        }
+        st.states += len as u64;
+        st.traces += 1;
+    }
+}
+
 /// constant-stream clauses
 fn constants(spec: &Spec, st: &mut Stats, sink: &Sink) {
     st.configs += 1;
@@ -319,6 +374,30 @@ pub fn run(ctx: &Ctx) -> CheckOutput {
                 let sink = Sink::new();
                 structured_pairs::<Q>(&spec, 2 * n + 12, &mut st, &sink);
                 JobOut { stats: st, viols: sink.take(), samples: vec![json!({"explorer":"LONG","scalar":"Q","view":spec.name(),"driver":"x in {impulse, step, ramp, late impulse} x y in {constant, alternating, zero}"})] }
+            }));
+        }
+    }
+    // scale families (f64): long run, wide window, huge window
+    {
+        let mut fam: Vec<(&'static str, Spec, usize)> = vec![];
+        for k in [Sma, Ema, Alma, Cumulative, SuperSmoother, CyberCycle] {
+            fam.push(("long run", Spec::un(k, if k == CyberCycle { 6 } else { 5 }, Spec::echo()), 66_000));
+            fam.push(("wide window", Spec::un(k, 300, Spec::echo()), 620));
+            // (Alma costs O(N) per update; the recursive filters keep no window, and with poles this
+            // close to 1 their rounding noise gain (~N^2) exceeds any tolerance worth stating)
+            if matches!(k, Sma | Ema | Cumulative) {
+                fam.push(("huge window", Spec::un(k, 70_000, Spec::echo()), 140_010));
+            }
+        }
+        fam.push(("long run", Spec::roofing(5, 3, Spec::echo()), 66_000));
+        fam.push(("wide window", Spec::roofing(300, 260, Spec::echo()), 1_200));
+        fam.push(("long run", Spec::unp(LaguerreFilter, 0, vec![0.5], Spec::echo()), 66_000));
+        for (label, spec, len) in fam {
+            jobs.push(Box::new(move || {
+                let mut st = Stats::default();
+                let sink = Sink::new();
+                scale_pairs(&spec, len, &mut st, &sink);
+                JobOut { stats: st, viols: sink.take(), samples: vec![json!({"explorer":"LONG","scalar":"f64","view":spec.name(),"family":label,"steps":len,"driver":"4 pairs of integer-valued streams, seven instances in lockstep, judged at every step"})] }
             }));
         }
     }
